@@ -403,15 +403,22 @@ def rule_transfer_bound(ctx, cfg, r):
         return sym[w] == 1 and w[0] == "bin" and w[1] == "BitAnd" and w[2] == ml and is_const(w[3]) and const_val(w[3]) & 3 == 0 and \
             const_val(w[3]) & 0xFFFFFFFC == 0xFFFFFFFC
     nloops = 0
+    # loop guards: the relations that hold on an iteration of each loop (evaluated from the loop head, so that conditions tested before
+    # the loop are not mistaken for its bound), in canonical form — `while out_pos < E` and `loop { if out_pos >= E { break } .. }` alike
+    heads = sorted({x.outcome[1] for x in rows if x.outcome[0] == "backedge"})
+    for h in heads:
+        ev2 = paths.Evaluator(c, stop_blocks=[tail] + [q for q in heads if q != h], max_paths=4000)
+        for x in ev2.run(f, start_bb=h):
+            if x.outcome != ("backedge", h):
+                continue
+            guards = [(lhs, rhs) for lhs, rel, rhs in rels(x) if rel == "Lt" and lhs == op]
+            nloops += 1
+            if guards and any(is_words(rhs) for _, rhs in guards):
+                r.ok(f.name, "word-loop", "loop bound %s" % tstr(guards[0][1])[:80])
+            else:
+                r.fail(f.name, "word-loop", "a copy loop that advances out_pos is not bounded by out_pos + (match_len >> 2) * 4 (guards: %s)"
+                       % [tstr(g[1])[:60] for g in guards])
     for x in rows:
-        # loop guards `out_pos < E` and fill ranges `out_pos..E`
-        for a, s in x.atoms:
-            if a[0] == "bin" and a[1] == "Lt" and s.single() == 1 and (a[2] == op) and x.outcome[0] in ("backedge",):
-                nloops += 1
-                if is_words(a[3]):
-                    r.ok(f.name, "word-loop", "loop bound %s" % tstr(a[3])[:80])
-                else:
-                    r.fail(f.name, "word-loop", "a copy loop runs to %s, which is not bounded by out_pos + (match_len >> 2) * 4" % tstr(a[3]))
         for e in x.effects:
             if e[0] == "call" and e[1].endswith("::fill"):
                 rg = [st for st in paths.subterms(e[2][0]) if st[0] == "agg" and st[1].endswith("ops::range::Range")]
